@@ -1,0 +1,259 @@
+//! Verification hooks (cargo feature `verif-hooks`, off by default).
+//!
+//! Nothing in this module is compiled into a normal build. The hooks give a
+//! test harness what it needs to make runs repeatable and bounded:
+//! a story-seed setter, a step-fuel limit for the continue loop, a virtual
+//! clock for `continue_async` (a budget of interpreter steps per slice
+//! instead of wall-clock milliseconds) and a read-only audit of the content
+//! tree (paths, kinds, text of every object).
+use std::rc::Rc;
+
+use crate::{
+    container::Container,
+    object::{Object, RTObject},
+    path::Path,
+    story::Story,
+};
+
+pub const FUEL_MESSAGE: &str = "VERIF-FUEL: step fuel exhausted";
+
+#[derive(Default)]
+pub struct VerifHooks {
+    pub(crate) fuel: Option<u64>,
+    pub(crate) async_step_budget: Option<u32>,
+    pub(crate) total_steps: u64,
+}
+
+impl VerifHooks {
+    pub(crate) fn fuel_exhausted(&mut self) -> bool {
+        match self.fuel.as_mut() {
+            Some(0) => true,
+            Some(n) => {
+                *n -= 1;
+                false
+            }
+            None => false,
+        }
+    }
+}
+
+/// One row of the content audit: an object of the loaded story.
+#[derive(Debug, Clone)]
+pub struct AuditRow {
+    /// depth-first ordinal (indexed content first, then named-only content sorted by name)
+    pub ordinal: usize,
+    /// ordinal of the parent container (`None` for the root)
+    pub parent: Option<usize>,
+    /// position in the parent's indexed content, if any
+    pub index: Option<usize>,
+    /// name under which the parent holds this object in its named content, if any
+    pub name: Option<String>,
+    pub kind: String,
+    /// `Display` of the object
+    pub text: String,
+    /// container flags as count_flags bits (containers only)
+    pub flags: i32,
+    /// `Object::get_path(..).to_string()`
+    pub path: String,
+    /// `content_at_path(path)` gave back this very object
+    pub resolves_to_self: bool,
+    /// `content_at_path(path)` was approximate
+    pub approximate: bool,
+    /// components string of `Path::new_with_components_string(path.to_string())`
+    pub reparsed: String,
+    pub reparsed_relative: bool,
+    /// the reparsed path `==` the original one
+    pub reparsed_eq: bool,
+    /// `hash` of the original and the reparsed path are equal
+    pub hash_eq: bool,
+}
+
+/// One row of the relative-path audit: from object `from` to object `to`.
+#[derive(Debug, Clone)]
+pub struct RelRow {
+    pub from: usize,
+    pub to: usize,
+    /// text of `convert_path_to_relative(from, path(to))`
+    pub relative: String,
+    pub is_relative: bool,
+    /// resolving that relative path from `from` leads to `to`
+    pub resolves: bool,
+    /// text → parse → text of the relative path is stable, and stays relative
+    pub roundtrip: bool,
+}
+
+impl Story {
+    /// Sets the story seed (normally drawn at random on construction and on reset).
+    pub fn verif_set_story_seed(&mut self, seed: i32) {
+        self.get_state_mut().story_seed = seed;
+        self.get_state_mut().previous_random = 0;
+    }
+
+    /// Limits the total number of interpreter steps; `None` removes the limit.
+    pub fn verif_set_step_fuel(&mut self, fuel: Option<u64>) {
+        self.verif.fuel = fuel;
+    }
+
+    /// Virtual clock for `continue_async`: a slice ends after `budget` steps.
+    pub fn verif_set_async_step_budget(&mut self, budget: Option<u32>) {
+        self.verif.async_step_budget = budget;
+    }
+
+    /// Number of interpreter steps taken so far by the continue loop.
+    pub fn verif_total_steps(&self) -> u64 {
+        self.verif.total_steps
+    }
+
+    /// `true` while a time-limited continue is unfinished.
+    pub fn verif_async_active(&self) -> bool {
+        self.async_continue_active
+    }
+
+    /// Walks the whole content tree and reports every object.
+    pub fn verif_content_audit(&self) -> Vec<AuditRow> {
+        let root = self.main_content_container.clone();
+        let mut rows = Vec::new();
+        let root_obj: Rc<dyn RTObject> = root.clone();
+        audit_walk(&root, &root_obj, None, None, None, &mut rows);
+        rows
+    }
+
+    /// Relative-path audit between all pairs of objects whose ordinals are given.
+    pub fn verif_relative_audit(&self, pairs: &[(usize, usize)]) -> Vec<RelRow> {
+        let root = self.main_content_container.clone();
+        let mut objs: Vec<Rc<dyn RTObject>> = Vec::new();
+        let root_obj: Rc<dyn RTObject> = root.clone();
+        collect(&root_obj, &mut objs);
+        let mut out = Vec::new();
+        for (from, to) in pairs {
+            let (Some(f), Some(t)) = (objs.get(*from), objs.get(*to)) else {
+                continue;
+            };
+            let _ = Object::get_path(f.as_ref());
+            let target_path = Object::get_path(t.as_ref());
+            let rel = Object::convert_path_to_relative(f, &target_path);
+            let resolved = Object::resolve_path(f.clone(), &rel);
+            let resolves = Rc::ptr_eq(&resolved.obj, t) && !resolved.approximate;
+            let text = rel.to_string();
+            let reparsed = Path::new_with_components_string(Some(&text));
+            let roundtrip = reparsed.to_string() == text && reparsed.is_relative() == rel.is_relative();
+            out.push(RelRow {
+                from: *from,
+                to: *to,
+                relative: text,
+                is_relative: rel.is_relative(),
+                resolves,
+                roundtrip,
+            });
+        }
+        out
+    }
+}
+
+fn collect(o: &Rc<dyn RTObject>, out: &mut Vec<Rc<dyn RTObject>>) {
+    out.push(o.clone());
+    if let Ok(c) = o.clone().into_any().downcast::<Container>() {
+        for child in c.content.iter() {
+            collect(child, out);
+        }
+        let mut names: Vec<&String> = c.named_content.keys().collect();
+        names.sort();
+        for n in names {
+            let nc = c.named_content.get(n).unwrap();
+            let as_obj: Rc<dyn RTObject> = nc.clone();
+            if !c.content.iter().any(|x| Rc::ptr_eq(x, &as_obj)) {
+                collect(&as_obj, out);
+            }
+        }
+    }
+}
+
+fn hash_of(p: &Path) -> u64 {
+    use std::hash::{Hash, Hasher};
+    let mut h = std::collections::hash_map::DefaultHasher::new();
+    p.hash(&mut h);
+    h.finish()
+}
+
+fn audit_walk(
+    root: &Rc<Container>,
+    o: &Rc<dyn RTObject>,
+    parent: Option<usize>,
+    index: Option<usize>,
+    name: Option<String>,
+    rows: &mut Vec<AuditRow>,
+) {
+    let ordinal = rows.len();
+    let path = Object::get_path(o.as_ref());
+    let path_str = path.to_string();
+    let found = root.content_at_path(&path, 0, -1);
+    let reparsed = Path::new_with_components_string(Some(&path_str));
+    let container = o.clone().into_any().downcast::<Container>().ok();
+    let kind = kind_of(o);
+    rows.push(AuditRow {
+        ordinal,
+        parent,
+        index,
+        name,
+        kind,
+        text: o.to_string(),
+        flags: container.as_ref().map(|c| c.get_count_flags()).unwrap_or(0),
+        path: path_str,
+        resolves_to_self: Rc::ptr_eq(&found.obj, o),
+        approximate: found.approximate,
+        reparsed: reparsed.to_string(),
+        reparsed_relative: reparsed.is_relative(),
+        reparsed_eq: reparsed == path,
+        hash_eq: hash_of(&reparsed) == hash_of(&path),
+    });
+    if let Some(c) = container {
+        for (i, child) in c.content.iter().enumerate() {
+            let child_name = child
+                .clone()
+                .into_any()
+                .downcast::<Container>()
+                .ok()
+                .and_then(|cc| cc.name.clone());
+            audit_walk(root, child, Some(ordinal), Some(i), child_name, rows);
+        }
+        let mut names: Vec<&String> = c.named_content.keys().collect();
+        names.sort();
+        for n in names {
+            let nc = c.named_content.get(n).unwrap();
+            let as_obj: Rc<dyn RTObject> = nc.clone();
+            if !c.content.iter().any(|x| Rc::ptr_eq(x, &as_obj)) {
+                audit_walk(root, &as_obj, Some(ordinal), None, Some(n.clone()), rows);
+            }
+        }
+    }
+}
+
+pub(crate) fn kind_of(o: &Rc<dyn RTObject>) -> String {
+    let any = o.as_any();
+    if any.is::<Container>() {
+        "Container"
+    } else if any.is::<crate::value::Value>() {
+        "Value"
+    } else if any.is::<crate::control_command::ControlCommand>() {
+        "ControlCommand"
+    } else if any.is::<crate::native_function_call::NativeFunctionCall>() {
+        "NativeFunctionCall"
+    } else if any.is::<crate::divert::Divert>() {
+        "Divert"
+    } else if any.is::<crate::choice_point::ChoicePoint>() {
+        "ChoicePoint"
+    } else if any.is::<crate::variable_reference::VariableReference>() {
+        "VariableReference"
+    } else if any.is::<crate::variable_assigment::VariableAssignment>() {
+        "VariableAssignment"
+    } else if any.is::<crate::tag::Tag>() {
+        "Tag"
+    } else if any.is::<crate::glue::Glue>() {
+        "Glue"
+    } else if any.is::<crate::void::Void>() {
+        "Void"
+    } else {
+        "Other"
+    }
+    .to_string()
+}
